@@ -176,7 +176,7 @@ def run_case(case: Dict[str, Any], ctx) -> None:
     if replace_case:
         ctx.count("replace:checked")
     if bad_out or bad_grad:
-        why = explain(prog, usp, inputs, outs_u, interp_replace, mod_attrs)
+        why = explain(prog, usp, inputs, outs_u, interp_replace, mod_attrs, grads_u=(gu if bad_out is None else None), ups=(ups if bad_out is None else None))
         clause = "output" if bad_out else "gradient"
         if replace_case and why == "unexplained":
             why = "user-replacement-not-honoured"
@@ -186,7 +186,7 @@ def run_case(case: Dict[str, Any], ctx) -> None:
         ctx.nontrivial(src)
 
 
-def explain(prog, usp, inputs, outs_u, interp_replace, mod_attrs) -> str:
+def explain(prog, usp, inputs, outs_u, interp_replace, mod_attrs, grads_u=None, ups=None) -> str:
     """Attribute a mismatch to a mechanism by evaluating alternative (wrong) recipes; returns a mechanism name or 'unexplained'
     (+ structural features).  Only used to key witnesses - never to excuse them."""
     import copy
@@ -214,11 +214,27 @@ def explain(prog, usp, inputs, outs_u, interp_replace, mod_attrs) -> str:
             return a
         progs.analyse = patched
         try:
-            pref = {k: v.detach().clone() for k, v in usp.items()}
-            ins = [t.detach().clone() for t in inputs]
-            with torch.no_grad():
-                outs, _ = progs.interpret(prog, pref, ins, "recipe", replace=interp_replace, mod_attrs=mod_attrs)
-            return close(outs)
+            if grads_u is None:
+                pref = {k: v.detach().clone() for k, v in usp.items()}
+                ins = [t.detach().clone() for t in inputs]
+                with torch.no_grad():
+                    outs, _ = progs.interpret(prog, pref, ins, "recipe", replace=interp_replace, mod_attrs=mod_attrs)
+                return close(outs)
+            # gradient-only mismatch: the alternative recipe must reproduce the library's gradients as well
+            pref = {k: v.detach().clone().requires_grad_(True) for k, v in usp.items()}
+            ins = [t.detach().clone().requires_grad_(True) if t.is_floating_point() else t.clone() for t in inputs]
+            outs, _ = progs.interpret(prog, pref, ins, "recipe", replace=interp_replace, mod_attrs=mod_attrs)
+            if not close(outs):
+                return False
+            leaves = [t for t in ins if t.is_floating_point()] + [pref[k] for k in sorted(usp)]
+            gr = torch.autograd.grad([y for y in outs if y.requires_grad], leaves, [u for y, u in zip(outs, ups) if y.requires_grad], allow_unused=True)
+            for a, b in zip(grads_u, gr):
+                if a is None or b is None:
+                    continue
+                sc = max(float(b.abs().max()), float(a.abs().max()), 1e-300)
+                if not float((a - b).abs().max()) / sc <= 1e-9:
+                    return False
+            return True
         except Exception:
             return False
         finally:
